@@ -2,7 +2,7 @@
    bounds); `Print Assumptions` follows each.  Oracle contracts (exp) appear as
    explicit hypotheses of the theorem that needs them. *)
 From Coq Require Import List Bool ZArith QArith Qabs Lia Lqa.
-From NV.Generated Require Import MrfTables.
+From NV.Generated Require Import MrfTables GmmFrags.
 From NV.C13 Require Import Model Proofs1 Proofs2.
 Import ListNotations.
 Open Scope Q_scope.
@@ -89,11 +89,24 @@ Proof.
 Qed.
 Print Assumptions ggm_posterior_zero_total_refuted.
 
-(* von Mises-Fisher responsibilities: for any (positive) exp oracle *)
+(* von Mises-Fisher responsibilities (shift by the row maximum, as read from the
+   source): on the simplex for EVERY finite input row - the shifted exponent of a
+   maximal component is exp 0 = 1, so the total is >= 1 even if every other
+   exponential underflows to 0; nothing can overflow because all shifted
+   exponents are <= 0. *)
 Theorem vmf_resp_simplex :
-  forall (EXP : Q -> Q) lwl, (forall x, 0 < EXP x) -> lwl <> [] -> simplex (vmf_resp EXP lwl).
+  forall (EXP : Q -> Q) lwl, (forall x, 0 <= EXP x) -> (forall x, x == 0 -> EXP x == 1) -> lwl <> [] ->
+  simplex (vmf_resp EXP lwl).
 Proof. exact vmf_resp_simplex. Qed.
 Print Assumptions vmf_resp_simplex.
+
+Theorem vmf_shifted_exponents_nonpositive :
+  src_vmf_shift = ShiftMax /\ forall lwl x, In x lwl -> x - vmf_shift lwl <= 0.
+Proof.
+  split; [reflexivity|]. intros lwl x Hin. unfold vmf_shift. change src_vmf_shift with ShiftMax. cbv iota.
+  pose proof (lmax_ge lwl x Hin). lra.
+Qed.
+Print Assumptions vmf_shifted_exponents_nonpositive.
 
 (* Segmentation.normalized_external_field: the max-shift guarantees a positive
    sum even when exp underflows to 0 elsewhere. *)
@@ -261,7 +274,8 @@ Qed.
 (* ===================================================================== 5. Gaussian likelihood algebra *)
 From Coq Require Import Ring Qcanon Reals.
 From NV.Lib Require Import RingMat.
-From NV.C13 Require Import Proofs3 Proofs4.
+From Coq Require Import Permutation.
+From NV.C13 Require Import Proofs3 Proofs4 Proofs5.
 Close Scope Qc_scope.
 Close Scope R_scope.
 Open Scope Q_scope.
@@ -316,70 +330,126 @@ Print Assumptions gauss_1d_is_textbook_density.
 
 (* ===================================================================== 6. diag M-step equivariance *)
 (* One component (r = its column of memberships, non-negative) and one axis (xs).
-   `asq` is the code's addcov[k] = sum over ALL axes of (empmean_j - prior_mean_j)^2.
-   Translation: data and the data-derived prior mean move by t (every axis by its own
-   t_j: then asq is unchanged, ms_addsq_translation_invariant) -> fitted mean + t,
-   covariance / precision unchanged.  The covariance clauses need the component to
-   be populated (pop >= tiny): the code divides by max(pop, tiny). *)
+   `asq` is the addcov term; for the current code it is the per-axis term
+   asq_axis (mstep_uses_per_axis_addcov).  The covariance clauses need the
+   component to be populated (pop >= tiny): the code divides by max(pop, tiny). *)
+Theorem mstep_uses_per_axis_addcov :
+  forall tiny r pm cols j, ms_asq tiny r pm cols j = asq_axis tiny (nth j pm 0) r (nth j cols []).
+Proof. reflexivity. Qed.
+Print Assumptions mstep_uses_per_axis_addcov.
+
 Theorem mstep_translation_equivariant :
-  forall small tiny r xs m0 asq asq' s0 dof0 dim t,
-  0 < small -> 0 < tiny -> Proofs1.nonneg r -> length r = length xs -> tiny <= qsum r -> asq' == asq ->
+  forall small tiny r xs m0 s0 dof0 dim t,
+  0 < small -> 0 < tiny -> Proofs1.nonneg r -> length r = length xs -> tiny <= qsum r ->
   ms_mean small (m0 + t) r (shift t xs) == ms_mean small m0 r xs + t /\
-  ms_cov small tiny asq' s0 dof0 dim r (shift t xs) == ms_cov small tiny asq s0 dof0 dim r xs /\
-  ms_prec small tiny asq' s0 dof0 dim r (shift t xs) == ms_prec small tiny asq s0 dof0 dim r xs.
+  ms_cov small tiny (asq_axis tiny (m0 + t) r (shift t xs)) s0 dof0 dim r (shift t xs)
+    == ms_cov small tiny (asq_axis tiny m0 r xs) s0 dof0 dim r xs /\
+  ms_prec small tiny (asq_axis tiny (m0 + t) r (shift t xs)) s0 dof0 dim r (shift t xs)
+    == ms_prec small tiny (asq_axis tiny m0 r xs) s0 dof0 dim r xs.
 Proof.
-  intros small tiny r xs m0 asq asq' s0 dof0 dim t Hs Ht Hr Hl Hp EA. split; [|split].
+  intros small tiny r xs m0 s0 dof0 dim t Hs Ht Hr Hl Hp.
+  assert (EA : asq_axis tiny (m0 + t) r (shift t xs) == asq_axis tiny m0 r xs)
+    by (apply asq_axis_translate; assumption).
+  split; [|split].
   - apply ms_mean_translate; assumption.
   - apply ms_cov_translate; assumption.
   - apply ms_prec_translate; assumption.
 Qed.
 Print Assumptions mstep_translation_equivariant.
 
-Theorem ms_addsq_translation_invariant :
-  forall tiny r ts pm cols, 0 < tiny -> tiny <= qsum r -> length pm = length ts ->
-  Forall (fun c => length r = length c) cols ->
-  ms_addsq tiny r (qadd2 pm ts) (shift_cols ts cols) == ms_addsq tiny r pm cols.
-Proof. intros tiny r ts pm cols Ht Hp HL HF. apply ms_addsq_translate; assumption. Qed.
-Print Assumptions ms_addsq_translation_invariant.
-
-(* Scaling: if the all-axes term scales by c^2 - true when there is one axis or ALL axes are
-   scaled by the same c (ms_addsq_uniform_scaling) - then mean * c, covariance * c^2,
-   precision / c^2 (prior mean * c, prior scale / c^2, as guess_regularizing produces). *)
-Theorem mstep_uniform_scaling_equivariant :
-  forall small tiny r xs m0 asq asq' s0 dof0 dim c,
+(* Per-axis scaling: rescaling THIS axis by c (prior mean * c, prior scale / c^2) gives
+   mean * c, covariance * c^2, precision / c^2 - whatever happens to the other axes,
+   because no term of the diag update mixes axes any more. *)
+Theorem mstep_axis_scaling_equivariant :
+  forall small tiny r xs m0 s0 dof0 dim c,
   0 < small -> 0 < tiny -> Proofs1.nonneg r -> length r = length xs -> tiny <= qsum r ->
-  ~ c == 0 -> ~ s0 == 0 -> asq' == c * c * asq ->
+  ~ c == 0 -> ~ s0 == 0 ->
   ms_mean small (c * m0) r (scale c xs) == c * ms_mean small m0 r xs /\
-  ms_cov small tiny asq' (s0 / (c * c)) dof0 dim r (scale c xs) == c * c * ms_cov small tiny asq s0 dof0 dim r xs /\
-  ms_prec small tiny asq' (s0 / (c * c)) dof0 dim r (scale c xs) == ms_prec small tiny asq s0 dof0 dim r xs / (c * c).
+  ms_cov small tiny (asq_axis tiny (c * m0) r (scale c xs)) (s0 / (c * c)) dof0 dim r (scale c xs)
+    == c * c * ms_cov small tiny (asq_axis tiny m0 r xs) s0 dof0 dim r xs /\
+  ms_prec small tiny (asq_axis tiny (c * m0) r (scale c xs)) (s0 / (c * c)) dof0 dim r (scale c xs)
+    == ms_prec small tiny (asq_axis tiny m0 r xs) s0 dof0 dim r xs / (c * c).
 Proof.
-  intros small tiny r xs m0 asq asq' s0 dof0 dim c Hs Ht Hr Hl Hp Hc Hs0 EA. split; [|split].
+  intros small tiny r xs m0 s0 dof0 dim c Hs Ht Hr Hl Hp Hc Hs0.
+  assert (EA : asq_axis tiny (c * m0) r (scale c xs) == c * c * asq_axis tiny m0 r xs)
+    by (apply asq_axis_scale; assumption).
+  split; [|split].
   - apply ms_mean_scale; assumption.
   - apply ms_cov_scale; assumption.
   - apply ms_prec_scale; assumption.
 Qed.
-Print Assumptions mstep_uniform_scaling_equivariant.
+Print Assumptions mstep_axis_scaling_equivariant.
 
-Theorem ms_addsq_uniform_scaling :
-  forall tiny r c pm cols, 0 < tiny -> tiny <= qsum r ->
-  ms_addsq tiny r (scale c pm) (map (scale c) cols) == c * c * ms_addsq tiny r pm cols.
-Proof. intros tiny r c pm cols Ht Hp. apply ms_addsq_uniform_scale; assumption. Qed.
-Print Assumptions ms_addsq_uniform_scaling.
-
-(* FINDING: per-axis scaling equivariance fails for prec_type='diag' in dimension >= 2:
-   addcov mixes the axes, so rescaling axis 0 by 2 changes the fitted variance of the
-   untouched axis 1 (two samples (0,0), (2,2) in one component, prior mean (0,0)). *)
-Theorem mstep_axis_scaling_refuted :
-  exists small tiny r col0 col1 s0 dof0 dim,
-    0 < small /\ 0 < tiny /\ Proofs1.nonneg r /\ tiny <= qsum r /\
-    ~ ms_cov small tiny (ms_addsq tiny r [2 * 0; 0] [scale 2 col0; col1]) s0 dof0 dim r col1
-      == ms_cov small tiny (ms_addsq tiny r [0; 0] [col0; col1]) s0 dof0 dim r col1.
+(* The same with the prior that guess_regularizing derives from the data column itself
+   (prior mean = column mean, prior scale = KF / column variance): translating the
+   column by t / rescaling it by c transforms the fitted mean and precision of this
+   axis accordingly. *)
+Theorem mstep_with_guess_regularizing_equivariant :
+  forall small tiny KF dof0 dim r xs t c,
+  0 < small -> 0 < tiny -> Proofs1.nonneg r -> length r = length xs -> tiny <= qsum r -> xs <> [] ->
+  ~ c == 0 -> ~ gr_scale KF xs == 0 ->
+  fit_mean small r (shift t xs) == fit_mean small r xs + t /\
+  fit_prec small tiny KF dof0 dim r (shift t xs) == fit_prec small tiny KF dof0 dim r xs /\
+  fit_mean small r (scale c xs) == c * fit_mean small r xs /\
+  fit_prec small tiny KF dof0 dim r (scale c xs) == fit_prec small tiny KF dof0 dim r xs / (c * c).
 Proof.
-  exists 1, (1 # 1000), [1; 1], [0; 2], [0; 2], 1, 4, 2.
-  split; [reflexivity|]. split; [reflexivity|]. split; [repeat constructor; discriminate|].
-  split; [discriminate|]. vm_compute. discriminate.
+  intros small tiny KF dof0 dim r xs t c Hs Ht Hr Hl Hp Hx Hc Hg. repeat split.
+  - apply fit_mean_translate; assumption.
+  - apply fit_prec_translate; assumption.
+  - apply fit_mean_scale; assumption.
+  - apply fit_prec_scale; assumption.
 Qed.
-Print Assumptions mstep_axis_scaling_refuted.
+Print Assumptions mstep_with_guess_regularizing_equivariant.
+
+(* Label-permutation equivariance.  (i) Row normalisation commutes with relabelling
+   (entrywise ==): memberships of relabelled likelihoods are the relabelled memberships. *)
+Theorem responsibilities_label_equivariant :
+  forall tiny row sigma, Permutation sigma (seq 0 (length row)) ->
+  Forall2 Qeq (gmm_resp tiny (sel 0 sigma row)) (sel 0 sigma (gmm_resp tiny row)).
+Proof. intros tiny row sigma H. apply norm_floor_sel. exact H. Qed.
+Print Assumptions responsibilities_label_equivariant.
+
+(* (ii) The diag M-step from a membership matrix: relabelling the columns of resp and the
+   rows / entries of the priors with a permutation sigma of the K labels relabels the fitted
+   means and precisions (equal as lists) and the weights (entrywise ==). *)
+Theorem mstep_label_equivariant :
+  forall tiny small dof0 pw pm ps K dim resp x sigma,
+  Permutation sigma (seq 0 K) -> length pw = K ->
+  let out := mstep_from_resp tiny small dof0 pw pm ps K dim resp x in
+  let out' := mstep_from_resp tiny small dof0 (sel 0 sigma pw) (sel [] sigma pm) (sel [] sigma ps)
+                              (length sigma) dim (map (sel 0 sigma) resp) x in
+  Forall2 Qeq (fst (fst out')) (sel 0 sigma (fst (fst out))) /\
+  snd (fst out') = sel [] sigma (snd (fst out)) /\
+  snd out' = sel [] sigma (snd out).
+Proof.
+  intros tiny small dof0 pw pm ps K dim resp x sigma HP HL. cbv zeta. split; [|split].
+  - apply relabel_weights; assumption.
+  - apply relabel_means; assumption.
+  - apply relabel_precs; assumption.
+Qed.
+Print Assumptions mstep_label_equivariant.
+(* not proved: that mstep_from_resp maps entrywise-== membership matrices to entrywise-==
+   results, which is what composing (i) and (ii) into one statement about raw likelihoods needs;
+   the end-to-end statement is checked on the implementation (oracle mstep/label-equivariance). *)
+
+(* The reduced-fraction functions executed in the correspondence (mstep_diag_x) agree
+   entry by entry with the functions the theorems above are about. *)
+Theorem mstep_exec_entries_agree :
+  forall small tiny m0 a a' s0 dof0 dim r xs pm cols j, a == a' ->
+  ms_mean_x small m0 r xs == ms_mean small m0 r xs /\
+  ms_asq_x tiny r pm cols j == ms_asq tiny r pm cols j /\
+  ms_cov_x small tiny a s0 dof0 dim r xs == ms_cov small tiny a' s0 dof0 dim r xs /\
+  ms_prec_x small tiny a s0 dof0 dim r xs == ms_prec small tiny a' s0 dof0 dim r xs /\
+  qsumr r == qsum r.
+Proof.
+  intros small tiny m0 a a' s0 dof0 dim r xs pm cols j E. repeat split.
+  - apply ms_mean_x_eq.
+  - apply ms_asq_x_eq.
+  - apply ms_cov_x_eq. exact E.
+  - apply ms_prec_x_eq. exact E.
+  - apply qsumr_eq.
+Qed.
+Print Assumptions mstep_exec_entries_agree.
 
 (* guess_regularizing transforms the prior exactly as the two theorems above assume *)
 Theorem guess_regularizing_equivariant :
@@ -407,25 +477,23 @@ Qed.
 Print Assumptions memberships_invariant_ingredients.
 
 (* ===================================================================== 7. BIC parameter count *)
+(* the expressions translated from GMM.bic count exactly the free parameters,
+   for every k and every dimension, for both precision types *)
 Theorem bic_param_count_diag :
-  forall k dim, bic_eta_diag_code k dim = free_params_diag k dim.
+  forall k dim, src_bic_eta_diag k dim == free_params_diag k dim.
 Proof. exact bic_diag_count. Qed.
 Print Assumptions bic_param_count_diag.
 
-(* FINDING: for prec_type == 'full' the code's count k*(1 + dim + (dim*dim+1)/2) - 1 equals the
-   number of free parameters k*(1 + dim + dim*(dim+1)/2) - 1 only in dimension one. *)
-Theorem bic_param_count_full_iff :
-  forall k dim, (k <> 0)%Z -> (bic_eta2_full_code k dim = free_params2_full k dim <-> dim = 1%Z).
-Proof. exact bic_full_count_iff. Qed.
-Print Assumptions bic_param_count_full_iff.
+Theorem bic_param_count_full :
+  forall k dim, src_bic_eta_full k dim == free_params_full k dim.
+Proof. exact bic_full_count. Qed.
+Print Assumptions bic_param_count_full.
 
-Theorem bic_param_count_full_refuted :
-  exists k dim, (0 < k)%Z /\ (0 < dim)%Z /\ bic_eta2_full_code k dim <> free_params2_full k dim.
-Proof. exists 1%Z, 2%Z. repeat split; try reflexivity. vm_compute. discriminate. Qed.
-Print Assumptions bic_param_count_full_refuted.
+Example bic_count_example : Qred (src_bic_eta_full 1 2) = 5 /\ Qred (src_bic_eta_full 3 4) = 44.
+Proof. vm_compute. split; reflexivity. Qed.
 
 (* non-vacuity of the M-step model *)
 Example mstep_example :
   Qred (ms_mean 1 0 [1; 1; 1] [1; 2; 3]) = 3 # 2 /\
-  Qred (ms_cov 1 (1 # 1000) (ms_addsq (1 # 1000) [1; 1; 1] [0] [[1; 2; 3]]) 1 3 1 [1; 1; 1] [1; 2; 3]) = 2 # 3.
+  Qred (ms_cov 1 (1 # 1000) (asq_axis (1 # 1000) 0 [1; 1; 1] [1; 2; 3]) 1 3 1 [1; 1; 1] [1; 2; 3]) = 2 # 3.
 Proof. vm_compute. split; reflexivity. Qed.
